@@ -298,7 +298,16 @@ func (c14) Exec(cc core.Case, r *core.Rec) []core.Failure {
 			return fs
 		}
 		// 1. the learner's events, in order: the first unsound one is the root cause
-		for i, e := range evts {
+		// (implication is decided by truth table: for more than 16 variables, or beyond the first 300
+		// events of one execution, only verdict, model and optimum are judged)
+		checked := evts
+		if n > 16 {
+			checked = nil
+		} else if len(checked) > 300 {
+			checked = checked[:300]
+		}
+		r.Count("pb_learner_events_checked_for_implication", int64(len(checked)))
+		for i, e := range checked {
 			prem := underBound(e.bound)
 			if e.lvl == -1 {
 				if !prem.IsEmpty() {
